@@ -176,6 +176,11 @@ def run_C10(ctx, args):
 
 
 # --------------------------------------------------------------------------- C29
+    if ctx.tier == "thorough":
+        # network-level consequence of the threshold (spec/Kernel/CosiSafety.tla)
+        import cosisafety
+        cosisafety.run_design(ctx)
+
 def world_of_case29(i, case):
     steps = [{"op": "append", "node": a["node"], "ts": a["ts"], "st": a["st"]} for a in case["appends"]]
     for t in sorted(case["elect"]):
